@@ -2,6 +2,7 @@ package store
 
 import (
 	"context"
+	"errors"
 	"fmt"
 	"io"
 
@@ -28,11 +29,30 @@ func (u *UseCase) Get(ctx context.Context, key string) (io.ReadCloser, error) {
 		filter.BeforeSeq = ptr.Ptr(tx.Seq)
 	}
 
-	f, err := u.fRepo.Get(ctx, tx.Id, key, filter)
-	if err != nil {
-		return nil, fmt.Errorf("file repository get: %w", err)
-	}
+	var collected string
+	for {
+		f, err := u.fRepo.Get(ctx, tx.Id, key, filter)
+		if err != nil {
+			return nil, fmt.Errorf("file repository get: %w", err)
+		}
 
+		content, err := u.getContent(ctx, f)
+		if errors.Is(err, fs_db.ErrNotFound) && f.ContentId != collected {
+			// The version may have been superseded and collected between the
+			// lookup and the read: look the key up once more before reporting
+			// it as deleted.
+			collected = f.ContentId
+			continue
+		}
+		if err != nil {
+			return nil, err
+		}
+
+		return content, nil
+	}
+}
+
+func (u *UseCase) getContent(ctx context.Context, f model.File) (io.ReadCloser, error) {
 	cf, err := u.cfRepo.Get(ctx, f.ContentId)
 	if err != nil {
 		return nil, fmt.Errorf("content file repository get: %w", err)
